@@ -73,10 +73,13 @@ TIERS = {
                     ("MC_MultiStore_C13_code.cfg", {"Vals": '{"x"}', "nprun": 4}, 300)],
             "C14": [("MC_MultiStore_C14.cfg", {"Vals": '{"x"}', "nprun": 3}, 600)],
         },
-        "sim_workers": 4, "sim_num": 60, "fault_every": 2, "ldb_share": 0.0,
+        "sim_workers": 4, "sim_num": 60, "fault_every": 1, "ldb_share": 0.0,
+        # every seed has one option of each asymmetric shape, given to the store BEFORE loading:
+        # A (kr>=2, ke=0), B (kr=0, ke>=2), C (kr>=1, ke>=2, kr != ke) -- confused arguments show
         "records": {
-            "C12": [dict(commits=45, pr="rand"), dict(commits=45, pr="rand"), dict(commits=30, pr=1), dict(commits=30, pr=2)],
-            "C13": [dict(commits=30, pr="rand"), dict(commits=30, pr=1)],
+            "C12": [dict(commits=30, pr="A", spal=False), dict(commits=30, pr="B", spal=False), dict(commits=30, pr="C", spal=False),
+                    dict(commits=40, pr="rand"), dict(commits=25, pr="shipped")],
+            "C13": [dict(commits=30, pr="A", spal=False), dict(commits=30, pr="rand")],
             "C14": [dict(commits=45, pr="rand"), dict(commits=45, pr="rand"), dict(commits=30, pr=1), dict(commits=30, pr=2)],
         },
     },
@@ -100,6 +103,8 @@ TIERS = {
         },
     },
 }
+# indices into PRUNING_SEQ by shape
+SHAPES = {"A": [9], "B": [3, 4], "C": [7, 8, 12], "shipped": [1, 2]}
 PRUNING_SEQ = [(0, 0), (0, 1), (0, 2), (0, 3), (1, 0), (1, 1), (1, 2), (1, 3), (2, 0), (2, 1), (2, 2), (2, 3), (100, 10000)]
 
 
@@ -201,13 +206,18 @@ class Issues:
     def __init__(self):
         self.items = []
         self.counts = {}
+        self.examples = {}
         self.tool = []
         self.rejected = None   # a recorded history the specification could not follow
 
     def add(self, sig, what, **fields):
         key = (sig, fields.get("cls"))
         self.counts[key] = self.counts.get(key, 0) + 1
-        if self.counts[key] <= 2:
+        # examples are kept per configuration too: a matcher of a known finding may name kr / ke,
+        # and the same signature under another pruning option is a different finding
+        ekey = (sig, fields.get("cls"), fields.get("kr"), fields.get("ke"), fields.get("spal"))
+        self.examples[ekey] = self.examples.get(ekey, 0) + 1
+        if self.examples[ekey] <= 2:
             d = {"sig": sig, "what": what}
             d.update(fields)
             self.items.append(d)
@@ -915,12 +925,17 @@ def record_and_validate(out, d, prop, tier, seed, rng, devs):
         pr = r["pr"]
         if pr == "rand":
             pr = rng.randint(1, 12)
+        elif pr in SHAPES:
+            pr = rng.choice(SHAPES[pr])
         krv, kev = PRUNING_SEQ[pr - 1]
         args = ["record", "--seed", str(seed * 1000 + j), "--commits", str(r["commits"]), "--kr", str(krv), "--ke", str(kev),
                 "--backend", r.get("backend", "memdb")]
         if "PruneBeforeFlush" not in devs:
             args.append("--prune-after-flush")
-        if rng.random() < 0.5:
+        spal = r.get("spal")
+        if spal is None:
+            spal = rng.random() < 0.5
+        if spal:
             args.append("--set-pruning-after-load")
         p = common.run_driver("storedrv", args, timeout=900)
         if p.returncode != 0:
